@@ -53,8 +53,10 @@ CHECKS["C02"] = ("Proof: C02.create_then_extract — for every list of sources w
                  "end-of-side markers, missing files, refusals) --create returns 0 and writes the archive of a consistent image; --extract of that "
                  "archive (either verbosity, with or without --into) returns 0 and writes exactly the files of the image as target/sideN/NAME.EXT in "
                  "catalog order; every file of the image is the exact data of one of the sources under the entry written for it. Built on "
-                 "C02.write_then_read (controller round trip, every size), the invariant of C05 and load(save img) = img. Not proved: which sources "
-                 "end up stored (placement, C10) and the report text (checked). Tie/oracle: create -> list -> extract of both real tools vs the "
+                 "C02.write_then_read (controller round trip, every size), the invariant of C05 and load(save img) = img; small_batch_roundtrip — a "
+                 "batch of readable 8.3-named sources needing at most 157 blocks and 112 entries is stored entirely on side 0, and extract then "
+                 "writes exactly as many files as there were sources, each the exact data of one. For larger batches which sources end up "
+                 "stored is the placement rule of C10. Tie/oracle: create -> list -> extract of both real tools vs the "
                  "compiled model and vs the sources, sizes 0 .. beyond a side, every block of a side as first block of a file.", D, "7 C02")
 CHECKS["C04"] = ("Proof: C04.created_image_is_well_formed — for every source list --create writes the serialisation of four sides each accepted by "
                  "the strict independent checker Spec.Dos.fsck (geometry, table byte 0 zero, 160 valid statuses, track 20 reserved, acyclic chains "
